@@ -68,6 +68,18 @@ pub fn make_case(class: u64, idx: u64, seed: u64) -> Case {
         let len = if i < 4 && r.chance(1, 2) { must[i] } else { match r.below(4) { 0 => r.range(0, 8) as usize, 1 => r.range(0, 64) as usize, _ => r.range(0, 300) as usize } };
         ops.push(if r.chance(1, 2) { Op::Wrap(len) } else { Op::Unwrap(len) });
     }
+    if class == 2 {
+        // messages around and beyond 64 KiB: a sealed message has no 16-bit framing of its own
+        ops.clear();
+        let big = [65519usize, 65520, 65534, 65535, 65536, 65537, 70000, 131072, 200001];
+        for _ in 0..r.range(1, 3) {
+            let len = *r.pick(&big);
+            ops.push(if r.chance(1, 3) { Op::Wrap(len) } else { Op::Unwrap(len) });
+        }
+        if r.chance(1, 2) {
+            ops.push(Op::Unwrap(r.range(0, 40) as usize));
+        }
+    }
     Case { handshake: class == 1, key_seed: r.next(), ops, gen: [class, idx, seed] }
 }
 
@@ -110,7 +122,17 @@ fn tampers(m: &[u8], r: &mut Rng, exhaustive_bits: bool) -> Vec<(String, Vec<u8>
             }
         }
     }
-    for k in 0..m.len() {
+    // every truncation point of short messages; for long ones the first 32, the last 4, around 64 KiB and a sample
+    let cuts: Vec<usize> = if m.len() <= 600 {
+        (0..m.len()).collect()
+    } else {
+        let mut v: Vec<usize> = (0..32).collect();
+        v.extend((1..=4).map(|d| m.len() - d));
+        v.extend([0xFFFEusize, 0xFFFF, 0x10000, 0x1000F, 0x10010, 0x10011].iter().filter(|k| **k < m.len()).cloned());
+        v.extend((0..24).map(|_| r.below(m.len() as u64) as usize));
+        v
+    };
+    for k in cuts {
         out.push((if k < 16 { "truncated-in-signature".into() } else { "truncated-in-ciphertext".into() }, m[..k].to_vec()));
     }
     for k in 1..=16 {
@@ -217,7 +239,15 @@ pub fn check_case(c: &Case, rep: &mut Report) {
                         match mon::guarded(|| fresh.gss_unwrapex(&t).map_err(|e| client::err_kind(&e))) {
                             Err(p) => viol.push((format!("C16/tamper/{}/{}", name, p.sig()), format!("op {}: {}", i, p.msg))),
                             Ok(Ok(p)) => viol.push((format!("C16/tamper/{}/accepted", name), format!("op {} of {:?}: an altered sealed message ({} bytes, plaintext {} bytes) was accepted and yielded {} bytes", i, c.ops, t.len(), n, p.len()))),
-                            Ok(Err(_)) => rep.hist("tamper-rejected"),
+                            Ok(Err(_)) => {
+                                rep.hist("tamper-rejected");
+                                // a refusal must leave nothing behind that makes the same forgery pass the next time
+                                match mon::guarded(|| fresh.gss_unwrapex(&t).map_err(|e| client::err_kind(&e))) {
+                                    Err(p) => viol.push((format!("C16/tamper/{}/second-presentation/{}", name, p.sig()), format!("op {}: {}", i, p.msg))),
+                                    Ok(Ok(p)) => viol.push((format!("C16/tamper/{}/accepted-on-second-presentation", name), format!("op {} of {:?}: an altered sealed message ({} bytes) was refused once and accepted when presented again ({} bytes of plaintext)", i, c.ops, t.len(), p.len()))),
+                                    Ok(Err(_)) => rep.hist("tamper-rejected-again"),
+                                }
+                            }
                         }
                         if viol.len() > 8 {
                             break;
@@ -287,7 +317,7 @@ pub fn run(cfg: &Cfg) -> Report {
             }
         }
     }
-    let plan: Vec<(u64, u64)> = vec![(0, cfg.n(600, 20_000)), (1, cfg.n(4_000, 200_000))];
+    let plan: Vec<(u64, u64)> = vec![(0, cfg.n(600, 20_000)), (1, cfg.n(4_000, 200_000)), (2, cfg.n(60, 3_000))];
     for (class, n) in plan {
         if !cfg.wants(class) {
             continue;
